@@ -1,6 +1,8 @@
 import ShroudVerif.Lemmas.DeclNoCrash
 import ShroudVerif.Lemmas.DeclRound
 import ShroudVerif.Lemmas.AttrsNoCrash
+import ShroudVerif.Lemmas.Lexer
+import ShroudVerif.Lemmas.YamlNoCrash
 import ShroudVerif.Gen.DeclTables
 import ShroudVerif.Gen.AttrTables
 /-!
@@ -26,7 +28,10 @@ namespace), for ALL token lists and all symbol/typemap environments.
 (5) attribute validation (`Model/Attrs.lean`, a model of generate.VerifyAttrs tied to the real
     code through the driver op `vattrs`): `verifyAttrs_no_crash`, the documented illegal
     combinations (`illegal_*`), the default rules (`default_*`).
-The YAML shape checks of ast.py are not modelled (implementation oracle only).
+(6) YAML structure validation (`Model/YamlShape.lean`, shape layer of ast.py, tied through the
+    driver op `yshape`): `yamlShape_no_crash`, `shape_*`.
+(1') the tokenizer over characters (`Model/Lexer.lean`): `tokenize_total`, `tokenize_concat`,
+    `checkDecl_no_crash` (so (2) covers strings, not only token lists).
 -/
 namespace Shroud.Decl
 
@@ -174,6 +179,53 @@ open Shroud.Gen.DeclTables in
 example : parse defaultEnv [tk .TYPE_SPECIFIER "int", tk .ID "x", tk .RPAREN ")"] = .reject "Expected EOF, found RPAREN" := by rfl
 
 end Shroud.Decl
+
+/-! ## (1') the tokenizer over characters, and `check_decl` on strings -/
+namespace Shroud.Lexer
+open Shroud.Decl
+
+/-- the token patterns of the tree under test, and their order, are the ones the model reads
+    (regenerated from `declast.token_specification`; a changed regex breaks this theorem) -/
+theorem tokenSpec_is_modelled : Shroud.Gen.DeclTables.tokenSpecCode = modelledSpec := by decide
+
+/-- **the tokenizer is total and never fails**: for every string the match loop ends normally,
+    within its budget, and never reaches "Unexpected character" -/
+theorem tokenize_total (s : List Char) : ∃ ts, tokenize s = .ok ts := by
+  obtain ⟨ps, hp, _⟩ := pieces_spec (s.length + 1) s [] (by omega)
+  exact ⟨ps.filterMap Piece.toToken, by simp [tokenize, hp]⟩
+
+/-- **nothing is lost or invented**: the matched pieces (tokens and skipped white space), in
+    order, spell exactly the input; the token list is those pieces without the white space,
+    `ID` matches reclassified as keywords -/
+theorem tokenize_concat (s : List Char) :
+    ∃ ps, pieces (s.length + 1) s [] = .ok ps ∧ textOf ps = s ∧
+      tokenize s = .ok (ps.filterMap Piece.toToken) := by
+  obtain ⟨ps, hp, ht⟩ := pieces_spec (s.length + 1) s [] (by omega)
+  exact ⟨ps, hp, by simpa [textOf] using ht, by simp [tokenize, hp]⟩
+
+/-- every match consumes at least one character and is a prefix of what remains -/
+theorem lexOne_progress (s : List Char) (h : s ≠ []) :
+    ∃ k t r, lexOne s = some (k, t, r) ∧ t ++ r = s ∧ t ≠ [] := lexOne_spec s h
+
+/-- **(2) on strings**: `check_decl` (tokenizer composed with the parser) never ends in an
+    internal Python exception, for every string -/
+theorem checkDecl_no_crash (env : Env) (s : List Char) (e : String) : checkDecl env s ≠ .crash e := by
+  obtain ⟨ts, ht⟩ := tokenize_total s
+  unfold checkDecl
+  rw [ht]
+  exact parse_no_crash env ts e
+
+example : tokenize "1.5e+3 1e 1.2.3 .. ... std::x".toList
+    = .ok [⟨.REAL, "1.5e+3".toList, []⟩, ⟨.INTEGER, "1".toList, []⟩, ⟨.ID, "e".toList, []⟩, ⟨.REAL, "1.2".toList, []⟩,
+           ⟨.REAL, ".3".toList, []⟩, ⟨.OTHER, ".".toList, []⟩, ⟨.OTHER, ".".toList, []⟩, ⟨.VARARG, "...".toList, []⟩,
+           ⟨.ID, "std".toList, []⟩, ⟨.SCOPE, "::".toList, []⟩, ⟨.ID, "x".toList, []⟩] := by rfl
+
+open Shroud.Gen.DeclTables in
+example : checkDecl defaultEnv "const  char*name +intent(in);".toList
+    = parse defaultEnv [tk .TYPE_QUALIFIER "const", tk .TYPE_SPECIFIER "char", tk .STAR "*", tk .ID "name", tk .PLUS "+",
+        tk .ID "intent", tk .LPAREN "(", tk .ID "in", tk .RPAREN ")", tk .SEMICOLON ";"] := by rfl
+
+end Shroud.Lexer
 
 /-! ## (5) attribute validation -/
 namespace Shroud.Attrs
@@ -410,3 +462,85 @@ example : checkFcn codeTables [] (.mk [] false false true (sp "void") (sp "void"
     = .reject "implied:unknown-argument" := by rfl
 
 end Shroud.Attrs
+
+/-! ## (6) YAML structure validation (shape layer of ast.py) -/
+namespace Shroud.Yaml
+open Shroud.Decl (Str)
+
+/-- **no internal failure in the YAML shape checks**: for every mapping (any keys, any value
+    tree) `create_library_from_dictionary`'s shape layer ends in `ok` or a diagnostic -/
+theorem yamlShape_no_crash (keys : List Str) (vals : List YVal) (e : String) :
+    createLibrary (.map keys vals) ≠ .crash e := NCy_createLibrary keys vals e
+
+theorem shapeEntry_no_crash (v : YVal) (e : String) : shapeEntry v ≠ .crash e := (NCy_shape v).2 e
+
+/-- a field that must be a mapping (`options`, `format`, `fields`, `attrs`, `fattrs`, `fstatements`,
+    `splicer`) and is something else is rejected, and the diagnostic names such a field -/
+theorem shape_field_must_be_dictionary (keys : List Str) (vals : List YVal) (names : List String) (k : String) (v : YVal)
+    (hk : k ∈ names) (hv : lookup k keys vals = some v) (hnd : v.isDict = false)
+    (hnb : ¬ (v.isNull = true ∧ (k = "options" ∨ k = "format" ∨ k = "fields"))) :
+    ∃ k', k' ∈ names ∧ checkDictFields keys vals names = .reject ("must-be-dictionary:" ++ k') := by
+  induction names with
+  | nil => cases hk
+  | cons a t ih =>
+    unfold checkDictFields
+    by_cases ha : a = k
+    · subst ha
+      refine ⟨a, by simp, ?_⟩
+      simp only [hv, hnd, Bool.false_eq_true, if_false]
+      have : ¬ (v.isNull = true ∧ (a = "options" ∨ a = "format" ∨ a = "fields")) := hnb
+      simp only [this, if_false]
+    · have hk' : k ∈ t := by
+        cases hk with
+        | head => exact absurd rfl ha
+        | tail _ h => exact h
+      obtain ⟨k', hm, hr⟩ := ih hk'
+      split
+      · split
+        · exact ⟨k', by simp [hm], hr⟩
+        · split
+          · exact ⟨k', by simp [hm], hr⟩
+          · exact ⟨a, by simp, rfl⟩
+      · exact ⟨k', by simp [hm], hr⟩
+
+/-- a field that must be a string and is not is rejected by name -/
+theorem shape_field_must_be_string (keys : List Str) (vals : List YVal) (blank : List String) (k : String) (v : YVal)
+    (hv : lookup k keys vals = some v) (hns : v.isStr = false) (hnb : ¬ (v.isNull = true ∧ blank.contains k = true)) :
+    checkStringFields keys vals blank [k] = .reject ("must-be-string:" ++ k) := by
+  simp only [checkStringFields, hv, hns, Bool.false_eq_true, false_or]
+  simp only [hnb, if_false]
+
+/-- `declarations` that is neither blank nor a list -/
+theorem shape_declarations_must_be_list (v : YVal) (ht : v.truthy = true) (hl : v.isList = false) :
+    shapeDecls v = .reject "must-be-list:declarations" := by
+  cases v <;> simp_all [shapeDecls, YVal.isList]
+
+/-- an entry of `declarations` that is not a mapping -/
+theorem shape_entry_must_be_dictionary (v : YVal) (h : v.isDict = false) :
+    shapeEntry v = .reject "declarations:entry-not-dictionary" := by
+  cases v <;> simp_all [shapeEntry, YVal.isDict]
+
+/-- an entry of `declarations` without `decl` or `block` -/
+theorem shape_entry_needs_decl_or_block (keys : List Str) (vals : List YVal)
+    (h1 : keys.contains "block".toList = false) (h2 : keys.contains "decl".toList = false) :
+    shapeEntry (.map keys vals) = .reject "declarations:no-decl-or-block" := by
+  simp [shapeEntry, h1, h2]
+
+/-- `language` other than c / c++ (any letter case) -/
+theorem shape_language (keys : List Str) (vals : List YVal) (s : Str) (h : lookup "language" keys vals = some (.str s))
+    (hb : lower s ≠ "c".toList ∧ lower s ≠ "c++".toList) :
+    checkLanguage keys vals = .reject "language:must-be-c-or-c++" := by
+  have h1 : ¬ (lower s = "c".toList ∨ lower s = "c++".toList) := fun hh => hh.elim hb.1 hb.2
+  simp only [checkLanguage, h, h1, if_false]
+
+/-- `copyright` that is not a list -/
+theorem shape_copyright (keys : List Str) (vals : List YVal) (v : YVal) (h : lookup "copyright" keys vals = some v)
+    (hl : v.isList = false) : createLibrary (.map keys vals) = .reject "must-be-list:copyright" := by
+  simp [createLibrary, checkCopyright, h, hl]
+
+/-- `library: t, declarations: [ {decl: "void f()"}, "oops" ]` -/
+example : createLibrary (.map ["library".toList, "declarations".toList]
+    [.str "t".toList, .list [.map ["decl".toList] [.str "void f()".toList], .str "oops".toList]])
+    = .reject "declarations:entry-not-dictionary" := by rfl
+
+end Shroud.Yaml
